@@ -335,6 +335,17 @@ Theorem C01_source_error_kind : forall (p : rsppkt) sprintf e,
                   end.
 Proof. exact ReplyEquiv.tr_doInvoke_reply_kind. Qed.
 
+(* ---- the CURRENT source of ServantProxy.TarsInvoke builds the model's request ----
+   the composite literal req := requestf.RequestPacket{..} is regenerated on every run: every member but the body (a cast
+   of the argument bytes) is the member of the model's mkreq. *)
+From TarsV Require Import Xlate.TarsInvokeEquiv.
+Theorem C01_source_request : forall e f args o (oneway : bool) id servant timeout sbuf,
+  (-2147483648 <= timeout <= 2147483647)%Z ->
+  exists g, tr_TarsInvoke_req (if oneway then c_c01_TARSONEWAY else c_c01_TARSNORMAL) (fs_name f) (status_of o) (ctx_of o) 0%Z
+              servant timeout c_c01_TARSVERSION id sbuf = Next g /\
+            req_is g (mkreq e f args o oneway id servant timeout) /\ go_requestf_RequestPacket_SBuffer g = sbuf.
+Proof. exact TarsInvokeEquiv.tr_TarsInvoke_req_equiv. Qed.
+
 Print Assumptions C01_transparent_ok_any_outs.
 Print Assumptions C01_prefilled_out_witness.
 Print Assumptions C01_minus_zero_witness.
@@ -358,3 +369,4 @@ Print Assumptions C01_concurrent_any_order.
 Print Assumptions C01_concurrent_calls.
 Print Assumptions C01_source_error_mapping.
 Print Assumptions C01_source_error_kind.
+Print Assumptions C01_source_request.
